@@ -776,6 +776,7 @@ impl<'run, 'src> Parser<'run, 'src> {
     #[derive(PartialEq, Eq)]
     enum State {
       Backslash,
+      BackslashCarriageReturn,
       Initial,
       Unicode,
       UnicodeValue { hex: String },
@@ -804,10 +805,21 @@ impl<'run, 'src> Parser<'run, 'src> {
             't' => cooked.push('\t'),
             '\\' => cooked.push('\\'),
             '\n' => {}
+            '\r' => {
+              state = State::BackslashCarriageReturn;
+              continue;
+            }
             '"' => cooked.push('"'),
             character => {
               return Err(token.error(CompileErrorKind::InvalidEscapeSequence { character }))
             }
+          }
+          state = State::Initial;
+        }
+        State::BackslashCarriageReturn => {
+          // a line of a file with CRLF line endings is continued
+          if c != '\n' {
+            return Err(token.error(CompileErrorKind::InvalidEscapeSequence { character: '\r' }));
           }
           state = State::Initial;
         }
@@ -844,6 +856,10 @@ impl<'run, 'src> Parser<'run, 'src> {
           }
         },
       }
+    }
+
+    if state == State::BackslashCarriageReturn {
+      return Err(token.error(CompileErrorKind::InvalidEscapeSequence { character: '\r' }));
     }
 
     if state != State::Initial {
